@@ -19,7 +19,7 @@ SIM_UNIT = "group operations"
 BUDGET = {"quick": {"runs": 1600, "wall": 85}, "thorough": {"runs": 12000, "wall": 2400}}
 SHRINK_LISTS = ("ops",)
 PROBES = {"C03": ["history>=1000", "history>=10000", "act4:w=0", "float32", "batched", "scale-steered",
-                  "assoc", "act-compose", "identity", "inverse", "reinit-from-identity", "logscale>8", "identity_-through-view:[::2]", "identity_-through-view:[:, 0]"]}
+                  "assoc", "act-compose", "identity", "inverse", "reinit-from-identity", "logscale>8", "identity_-through-view:[::2]", "identity_-through-view:[:, 0]", "operand:expanded", "operand:broadcast", "operand:non-contiguous"]}
 TS = float(os.environ.get("PPSIM_TOLSCALE", "1"))
 UPDATES = ("mulr", "mull", "inv", "add_", "plus", "retr", "idl", "idr", "reinit", "ident_view")
 PROBE_OPS = ("act3", "act4", "assoc", "actcomp", "access", "invlaw")
@@ -199,7 +199,22 @@ def execute(plan, prop, out, tr):
                 out.probe("scale-steered")
             if op in ("mulr", "mull"):
                 Y = lie(a.to(dtype), fam, False).Exp()
-                MY = to_mat(fam, npd(Y))
+                lay = i % 5
+                if bs and lay == 1:
+                    # one fresh operand broadcast against the whole batch (stride-0 expand)
+                    Y = pp.LieTensor(lie(a.reshape(-1, md)[0].to(dtype), fam, False).Exp().tensor().expand(bs + (gd,)), ltype=X.ltype)
+                    out.probe("operand:expanded")
+                elif bs and lay == 2:
+                    # lshape () operand against a batched element (broadcasting of the batch dimensions)
+                    Y = lie(a.reshape(-1, md)[0].to(dtype), fam, False).Exp()
+                    out.probe("operand:broadcast")
+                elif lay == 3:
+                    # operand living in every second slot of a larger buffer (non-contiguous storage)
+                    big = torch.zeros(bs + (2 * gd,), dtype=dtype)
+                    big[..., ::2] = Y.tensor()
+                    Y = pp.LieTensor(big[..., ::2], ltype=X.ltype)
+                    out.probe("operand:non-contiguous")
+                MY = np.broadcast_to(to_mat(fam, npd(Y)), MX.shape).copy()
                 Xb, Yb = X.clone(), Y.clone()
                 if op == "mulr":
                     R = (X @ Y) if i % 2 else (X * Y); want = MX @ MY; Mref = Mref @ MY
